@@ -18,6 +18,16 @@ CLAIMS = {
    note=PROOF_NOTE + "Unnamed tag constraints (only constructible with from_parts) are outside the theorem and reported as an excluded point.",
    technique="Lean 4 proof (induction over the constraint list) + differential correspondence with a direct NIP-01 oracle",
    design="6/C06"),
+ 'C20': dict(
+   text="Lean theorems on the register model: merge is commutative/associative/idempotent, add_element (a max-update of one register) is "
+        "idempotent and order-independent, never overflows its u8 zero count (rho <= 249) for offsets < 24 and is rejected for offsets >= 24, "
+        "the sketch of any list whose members are exactly those of A or B equals merge(sketch A, sketch B) (set semantics: order and "
+        "multiplicity irrelevant), hex export/import is the identity on all 256-register byte states and import is case-insensitive. "
+        "Correspondence: import/add/merge/export/estimate on the real Hll8 vs the model incl. every register extreme 0..255; laws re-evaluated "
+        "on the real code. The floating-point estimate is compared, not proved; the 40% envelope is a labelled statistical test.",
+   note=PROOF_NOTE + "PARTIAL: IEEE-754 evaluation of estimate_count and the statistical accuracy of HyperLogLog are outside the kernel's reach.",
+   technique="Lean 4 proof (list induction, max-semilattice laws) + differential correspondence; labelled statistical test",
+   design="6/C20"),
 }
 
 checks = []
